@@ -313,6 +313,30 @@ MANIFEST_TEXT["C03"] = {
     "design_ref": "DESIGN.md section 3 / C03",
 }
 
+PLAN["C06"] = {
+    "pkg": "c06",
+    "tests": [
+        {"name": "TestModifierGroupMembership", "quick": (40000, 8), "thorough": (4000000, 16)},
+        {"name": "TestEngineGroupMembership", "quick": (12000, 8), "thorough": (800000, 16)},
+    ],
+    "budget": {"quick": 600, "thorough": 5400},
+    "rule": "worlds with 1-4 query-based groups drawn from 33 queries over every queryable property (name, language, URNs/schemes, created_on, "
+            "last_seen_on, tickets, number/text/datetime/location fields, AND/OR), contacts whose stored membership is random (possibly "
+            "wrong) and of any status; (i) every modifier type applied directly, (ii) engine scenarios with manual/msg/flow_action triggers, "
+            "msg resumes, contact refresh and every contact-changing action. Oracle after each effective modifier / returned sprint: for "
+            "every query group, member <=> status active and Group.CheckQueryBasedMembership; non-active contacts hold no static groups "
+            "(the event side of the claim is C03's replay model). Where the verdict differs between the session environment and the "
+            "contact-timezone environment either is accepted and counted. Non-trivial = membership of a query group changed in that "
+            "step; distinct by (assets, contact, modifier/sprint).",
+    "assumptions": COMMON_ASSUMPTIONS + ["Group.CheckQueryBasedMembership (i.e. contactql evaluation, itself checked by C15) is the reference verdict"],
+}
+MANIFEST_TEXT["C06"] = {
+    "technique": "property-based testing (rapid, stateful): invariant membership == query verdict checked after every generated modifier and sprint, starting from deliberately stale membership",
+    "level_text": "Exploration: after every effective modifier and every returned sprint, membership in every query-based group equalled the query's verdict.",
+    "level_note": "The query evaluator is shared with the implementation (its own consistency is property C15); what is independent is *when* re-evaluation happens.",
+    "design_ref": "DESIGN.md section 3 / C06",
+}
+
 # every property without a registered check is listed here with the reason (kept current as checks are added)
 NOT_APPLICABLE = [{"property_id": pid, "reason": "check not built yet in this round (planned in DESIGN.md); nothing is claimed for it"}
                   for pid in ALL_IDS if pid not in PLAN]
